@@ -70,6 +70,7 @@ func (fr *Frame) callFn(st *State, site ssa.Instruction, fn *ssa.Function, args 
 	// methods of abstract (ring-element) types are interpreted by their ring meaning
 	if r, ok := fr.ringCall(st, fn, args); ok {
 		if fr.top {
+			st.srcVar["callresult"] = r
 			fr.anchor(st, "call", fn.Name(), -1)
 		}
 		return r
@@ -78,6 +79,7 @@ func (fr *Frame) callFn(st *State, site ssa.Instruction, fn *ssa.Function, args 
 		if v.layerKeyOf(fn.Pkg, c) == v.curLayerKey && len(c.Lets) == 0 {
 			res = fr.applyContract(st, site, c, fn, args)
 			if fr.top {
+				st.srcVar["callresult"] = res
 				fr.anchor(st, "call", fn.Name(), -1)
 			}
 			return res
@@ -91,6 +93,7 @@ func (fr *Frame) callFn(st *State, site ssa.Instruction, fn *ssa.Function, args 
 	}
 	res = fr.inline(st, fn, args, bindings)
 	if fr.top {
+		st.srcVar["callresult"] = res
 		fr.anchor(st, "call", fn.Name(), -1)
 	}
 	return res
@@ -239,10 +242,13 @@ func (fr *Frame) applyContract(st *State, site ssa.Instruction, c *Contract, fn 
 		}
 	}
 	if fr.top {
-		fr.cnt["callghost:"+fn.Name()]++
+		if st.cnt == nil {
+			st.cnt = map[string]int{}
+		}
+		st.cnt["callghost:"+fn.Name()]++
 		for n, t := range se2.ghostLocal {
 			st.ghosts[fn.Name()+"_"+n] = t
-			st.ghosts[fmt.Sprintf("%s_%s_%d", fn.Name(), n, fr.cnt["callghost:"+fn.Name()])] = t
+			st.ghosts[fmt.Sprintf("%s_%s_%d", fn.Name(), n, st.cnt["callghost:"+fn.Name()])] = t
 		}
 	}
 	for _, e := range c.Ensures {
